@@ -748,13 +748,14 @@ func (s *ResettableKeystore) ResetCids(ctx context.Context, keysChan <-chan cid.
 	case <-s.done:
 		return ErrClosed
 	case s.resetOps <- resetOp{ctx: ctx, op: opStart, response: opsChan}:
-		select {
-		case err := <-opsChan:
-			if err != nil {
-				return err
-			}
-		case <-ctx.Done():
-			return ctx.Err()
+		// The worker has taken the operation and always answers it; its
+		// datastore calls observe ctx, so the answer comes promptly after a
+		// cancellation. Do not return before it: the worker would stay blocked
+		// on the unbuffered opsChan forever (with resetInProgress set), and
+		// every later operation and Close with it. A cancelled ctx is noticed
+		// by Phase A below, after the cleanup has been registered.
+		if err := <-opsChan; err != nil {
+			return err
 		}
 	}
 
